@@ -134,6 +134,15 @@ fn run_case(seed: u64, lean: &mut Lean, hist: &mut BTreeMap<String, u64>, sample
                     *hist.entry("create-keyspace".into()).or_insert(0) += 1;
                 }
             }
+            4 | 5 if !stale.is_empty() && r.chance(1, 3) => {
+                // deleting again through a handle of an already deleted keyspace changes nothing,
+                // in particular not a keyspace created later under the same name (finding F23, fixed)
+                let (h, id) = r.pick(&stale).clone();
+                if let Err(e) = dbref!().delete_keyspace(h) { fail!("impl-vs-oracle", "delete_keyspace(stale handle of id {id}) failed: {e:?}"); }
+                trace.push(format!("delete through a stale handle (id {id})"));
+                *hist.entry("delete-through-stale-handle".into()).or_insert(0) += 1;
+                for (n, l) in &live { if !dbref!().keyspace_exists(n) { fail!("impl-vs-oracle", "after delete_keyspace(stale handle of id {id}) the live keyspace {n} (id {}) is no longer registered", l.id); } }
+            }
             4 | 5 => {
                 if let Some(n) = live.keys().copied().collect::<Vec<_>>().get(r.below(live.len().max(1) as u64) as usize).copied() {
                     let l = live.remove(n).unwrap();
